@@ -1,1 +1,14 @@
 import AL.Props.C16
+#print axioms AL.C16.roundtrip
+#print axioms AL.C16.faithful_of_roundtrip
+#print axioms AL.C16.roundtrip_iff
+#print axioms AL.C16.fileOk_iff
+#print axioms AL.C16.roundtrip'
+#print axioms AL.C16.roundtrip_file_counterexample
+#print axioms AL.C16.roundtrip_conv'
+#print axioms AL.C16.roundtrip_conv_counterexample
+#print axioms AL.C16.nondot_rejected
+#print axioms AL.C16.linebreak_rejected
+#print axioms AL.C16.linebreak_breaks
+#print axioms AL.C16.snippet
+#print axioms AL.C16.split_lines
